@@ -12,13 +12,15 @@ mcvars == <<vars, pc, fault, step>>
 \* calls that can fail (everything but the in-memory config write)
 Fallible(c) == {i \in 1..Len(Prog(c)) : Prog(c)[i] # "cfgroot"}
 
-Init == /\ \E c \in Configs : InitWith(c)
+Init == /\ \E c \in Configs, u \in Starters : InitWithAs(c, u)
         /\ pc = 1 /\ step = "none"
         /\ fault \in {"none"} \cup {Prog(cfg)[i] : i \in Fallible(cfg)}
 
 Do(name, ok) ==
     CASE name = "loadtls"   -> LoadTLS(ok)
       [] name = "bind"      -> Bind(ok)
+      [] name = "lookupuser"  -> LookupUser(ok)
+      [] name = "lookupgroup" -> LookupGroup(ok)
       [] name = "chroot"    -> Chroot(ok, TRUE)
       [] name = "chdir"     -> Chdir(ok, TRUE)
       [] name = "cfgroot"   -> SetCfgRoot("slash")
@@ -41,7 +43,9 @@ Next == Step \/ Finish
 Spec == Init /\ [][Next]_mcvars
 
 \* step clauses as an action property: judged in the state BEFORE the privileged step
-StepsInOrder == [][Step => StepClauses(Prog(cfg)[pc]) = "ok"]_mcvars
+\* (only for steps that succeed: a refused or failing call changes nothing and aborts start-up)
+StepTaken == Prog(cfg)[pc] # fault /\ OsPermits(Prog(cfg)[pc])
+StepsInOrder == [][(Step /\ StepTaken) => StepClauses(Prog(cfg)[pc]) = "ok"]_mcvars
 StatesOk == StateClauses = "ok"
 \* non-vacuity witnesses (expected to be VIOLATED when checked: see MC_C19_reach.cfg)
 NeverServesChrootedAndDropped == ~(phase = "serving" /\ cfg.chroot /\ cfg.uid /\ cfg.gid /\ cfg.tls)
